@@ -170,6 +170,7 @@ func checkC18(c *mc.Ctx) {
 		"multi-packet-and-af":       append(append([]MOp{}, setupAB...), opDataA3, opDataARAI, opDataAprv, opDataB1),
 		"writepacket":               append(append([]MOp{}, setupAB...), opPktNull, opPktAF, opPktShort, opDataAs1, opTables, opPktShAF, opPktNull),
 		"full-header-ext-af":        append(append([]MOp{}, setupAB...), MOp{K: "data", PID: 0x100, Len: 300, Hdr: "full", AF: "ext"}, MOp{K: "data", PID: 0x101, Len: 150, Hdr: "ptsdts", AF: "splice"}, opDataAs1),
+		"every-af-part-at-once":     append(append([]MOp{}, setupA...), MOp{K: "data", PID: 0x100, Len: 300, AF: "allfixed"}, MOp{K: "data", PID: 0x100, Len: 20, AF: "allfixed"}),
 	}
 	baseScens := map[string]bool{}
 	for k := range scens {
